@@ -7,13 +7,13 @@
 (* blank/comment lines changes nothing but line numbers).  Emit prints each *)
 (* document (lines + the ranges usable with the other entry points).        *)
 EXTENDS GherkinDoc, TLC, Json
-CONSTANTS MaxRules, MaxScen, MaxEx, MaxSteps, MaxStmts, MaxStepsTot, MaxLines,
+CONSTANTS MaxRules, MaxScen, MaxEx, MaxSteps, MaxStmts, MaxStepsTot, MaxLines, MaxElems,
           LayoutsF, Layouts, Hows, Descs, StepKws, Args, ExVariants, Gaps
 
 VARIABLE g
 Init == g = G0
 
-Room(x) == Len(x.lines) <= MaxLines
+Room(x) == Len(x.lines) <= MaxLines /\ Len(x.exp) <= MaxElems
 Next ==
    \/ /\ g.cur = "none"
       /\ \E lay \in LayoutsF, how \in Hows, nd \in Descs : g' = AddFeature(g, lay, how, nd)
